@@ -70,7 +70,12 @@ pub fn replay_stores<V: Value>(endian: Endian, backing: Option<RC<backing::Memor
             }
         }
     }
-    proof { assert(all.take(all.len() as int) =~= all); }
+    proof {
+        assert(all.take(all.len() as int) =~= all);
+        assert forall|x: u64| #[trigger] m.full(x as int) == (match after_stores(endian, all, x) { Some(b) => Some(b), None => bk_at(m.bk(), x as int) }) by {
+            assert(m.own(x) == after_stores(endian, all, x));
+        }
+    }
     m
 }
 
